@@ -349,6 +349,7 @@ func c18iall(d *c18idrv) {
 	c18irun(d, vc18.StructPadMid())
 	c18irun(d, vc18.StructPadNest())
 	c18irun(d, vc18.StructPadNestOff())
+	c18irun(d, vc18.StructPadDeep())
 	c18irun(d, vc18.StructPadPtr())
 	c18irun(d, vc18.ArrayPadLead())
 	c18irun(d, vc18.StructPadWide())
